@@ -174,6 +174,19 @@ func (x *Exec) applyContract(st *State, i *ssa.Call, fi *FuncInfo, fs *FuncSpec,
 	}
 	post := x.funcEnvExt(fi, fs, "post", st, old, args, rs)
 	for _, c := range fs.Clauses {
+		if c.Kind == "defines" {
+			// functional consistency: the (single) result is a function of the argument values
+			v, err := post.EvalVal(c.E)
+			if err != nil {
+				vfail("%s: defines %s: %v", c.Line, c.Text, err)
+			}
+			if si, ok := v.(SInt); ok && len(rs) == 1 {
+				st.assume(Eq(asScalar(rs[0]).T, si.T))
+				x.W.Assumes["functional consistency: "+fi.Key+" is deterministic; its result is named "+c.Text+" (pure function: assigns nothing, reads no mutable state)"] = true
+			} else {
+				vfail("%s: defines needs a single integer result", c.Line)
+			}
+		}
 		if c.Kind != "ensures" {
 			continue
 		}
